@@ -172,9 +172,10 @@ func init() {
 		}},
 	)
 	hc := h("cont.H_Conc", conc(1), conc(1), []string{"both_done"}, 10, concDesc)
+	hrace := h("cont.H_Conc", map[string]int{"ops": 1, "order_schemes": 1, "race": 1}, map[string]int{"ops": 1, "order_schemes": 1, "race": 1}, []string{"both_done"}, 0, concDesc+"; with the VM's happens-before (vector clock) race detector on every memory cell and map the container's own code touches; a race is confirmed by Go's race detector on free-running native goroutines")
 	hcb := h("cont.H_CloseInCallback", map[string]int{"order_schemes": 1}, map[string]int{"order_schemes": 2}, []string{"callback_closed"}, 10, cbDesc)
 	properties = append(properties,
-		propertySpec{ID: "C09", Harnesses: []harnessSpec{hc, hcb}},
+		propertySpec{ID: "C09", Harnesses: []harnessSpec{hc, hcb, hrace}},
 		propertySpec{ID: "C13", Harnesses: []harnessSpec{
 			h("cont.H_Closed", map[string]int{"order_schemes": 2}, map[string]int{"order_schemes": 4}, []string{"close_node", "cancel_scope_ctx", "cancel_child_ctx"}, 20, closedDesc),
 			hcb, hc,
